@@ -903,6 +903,12 @@ def sym_binop(E, op, a, b, w, flags):
     elif op == 'lshr': r = z3.LShR(x, y)
     elif op == 'ashr': r = x >> y
     elif op in ('udiv', 'urem', 'sdiv', 'srem'):
+        if not z3.is_bv_value(y) and not E.merge_depth:
+            # a symbolic divisor is enumerated (forks over its feasible values, capped): division by a variable does not bit-blast
+            # within budget, and in this code base divisors are small counts (providers, buckets) already pinned by loop bounds
+            yv = E.concretize(y, why='symbolic divisor')
+            y = z3.BitVecVal(yv, w)
+            if z3.is_bv_value(x): return binop_concrete(op, x.as_long(), yv, w) if yv != 0 else sym_binop(E, op, x, y, w, flags)
         zero = (y == z3.BitVecVal(0, w))
         if E.check(zero):
             E.violation('ub', 'division by zero possible', zero)
